@@ -65,8 +65,12 @@ def check_case(ctx, case):
     role, is_async = case["role"], case["async"]
     lay = case["layout"]
     errform = case["error"]
-    err_src = {"default": None, "class": "ValueError", "instance": "ERR_INSTANCE"}[errform]
-    prelude = LY.PRELUDE + "ERR_INSTANCE = KeyError('the instance')\n"
+    # "factory": a function naming call arguments (which the condition need not take) - for invariants: `self`
+    err_src = {"default": None, "class": "ValueError", "instance": "ERR_INSTANCE",
+               "factory": "ERR_FACTORY_INV" if role == "invariant" else "ERR_FACTORY"}[errform]
+    prelude = LY.PRELUDE + ("ERR_INSTANCE = KeyError('the instance')\nMADE = []\n"
+                            "def ERR_FACTORY(x, s, ys):\n    MADE.append(KeyError('made', x, s))\n    return MADE[-1]\n"
+                            "def ERR_FACTORY_INV(self):\n    MADE.append(KeyError('made'))\n    return MADE[-1]\n")
     text, start, end, scope = RD.module_text(ctext, lam_params, role=role, is_async=is_async, error=err_src,
                                              layout=LY.make_layout(lay["kind"]), nest=lay["nest"], above=lay["above"],
                                              below=lay["below"], prelude=prelude)
@@ -99,6 +103,7 @@ def check_case(ctx, case):
         exc = RD.call(mod, role, is_async, inputs)
         m_set = set(exprlib.PROBES)
         err_instance = mod.mod.ERR_INSTANCE
+        made = list(mod.mod.MADE)
         path = mod.path
     finally:
         mod.close()
@@ -117,6 +122,8 @@ def check_case(ctx, case):
         ok = type(exc) is icontract.ViolationError
     elif errform == "class":
         ok = type(exc) is ValueError and exc.__cause__ is None
+    elif errform == "factory":
+        ok = len(made) == 1 and exc is made[0]
     else:
         ok = exc is err_instance
     if not ok:
@@ -128,7 +135,7 @@ def check_case(ctx, case):
         fail("(d)skipped-operand-evaluated", "building the message evaluated probes %s which Python's evaluation skipped "
              "(Python evaluated %s)" % (sorted(m_set - p_set), sorted(p_set)))
         return
-    if errform != "instance":
+    if errform not in ("instance", "factory"):
         msg = str(exc)
         lines = msg.split("\n")
         m = MP.LOC_RE.match(lines[0])
@@ -210,7 +217,7 @@ def st_case(draw, tier):
         feats = list(feats) + ["shadowing-globals"]
     return {"text": text, "params": GR.free_params(text), "features": feats, "role": role, "shadow": shadow,
             "async": role != "invariant" and draw(st.integers(0, 3)) == 0, "inputs": inputs,
-            "layout": draw(LY.st_layout(role)), "error": draw(st.sampled_from(["default", "default", "class", "instance"])),
+            "layout": draw(LY.st_layout(role)), "error": draw(st.sampled_from(["default", "default", "default", "class", "instance", "factory"])),
             "rewritten": draw(st.integers(0, 5)) == 0}
 
 
@@ -284,6 +291,21 @@ def directed(ctx, only=None):
             check_case(ctx, {"text": text, "params": GR.free_params(text), "features": ["directed"], "role": "require",
                              "async": False, "inputs": inputs, "error": "default", "directed": i,
                              "layout": {"kind": kind, "nest": "func", "above": [], "below": []}})
+
+    # every role x sync/async x every form of `error`, on a condition that names one argument only (so that an error
+    # factory asks for arguments the condition does not take)
+    for role in ("require", "ensure", "invariant"):
+        for is_async in (False, True):
+            for errform in ("default", "class", "instance", "factory"):
+                i += 1
+                if only is not None and only != i:
+                    continue
+                if role == "invariant" and is_async:
+                    continue
+                text = "len(self.xs) > 1000" if role == "invariant" else "len(xs) > 1000"
+                check_case(ctx, {"text": text, "params": GR.free_params(text), "features": ["directed"], "role": role,
+                                 "async": is_async, "inputs": dict(base), "error": errform, "directed": i,
+                                 "layout": {"kind": "one-line", "nest": "func", "above": [], "below": []}})
 
 
 SCOPE_SRC = """import icontract
